@@ -279,7 +279,7 @@ def check_seq(pid, tier, seed):
     build(["walreplay"])
     eng = we.Engine(pid, tier, seed)
     consts = dict(MaxIdx=5, Starts={1, 4}, MaxBatch=2, Sizes={1}, MaxOps=(3, 4)[ti], Keys={1}, Vals={0, 2},
-                  WithBad=True, WithReopen=False, WithStable=False, MinOps=3)
+                  WithBad=True, WithReopen=False, WithStable=False, MinOps=3, WithHuge=True)
     wl = we.gen_workloads(consts, mode="bfs", stats=eng.stats, timeout=600)
     consts2 = dict(consts, MaxOps=(8, 14)[ti], MaxIdx=9)
     wl2 = we.gen_workloads(consts2, mode="simulate", num=(150, 2000)[ti], seed=seed, stats=eng.stats)
@@ -500,7 +500,7 @@ def check_metrics(pid, tier, seed):
     p = run_bin("metricscan", [REPO], ok_codes=(0, 1))
     scan = json.loads(p.stdout.strip().splitlines()[-1])
     consts = dict(MaxIdx=5, Starts={1, 3}, MaxBatch=2, Sizes={1}, MaxOps=(3, 4)[ti], Keys={1}, Vals={0, 2},
-                  WithBad=True, WithReopen=False, WithStable=True, MinOps=3)
+                  WithBad=True, WithReopen=False, WithStable=True, MinOps=3, WithHuge=True)
     wl = we.gen_workloads(consts, mode="bfs", stats=eng.stats, timeout=600)
     eng.rng.shuffle(wl)
     wl = wl[:(3000, 40000)[ti]]
